@@ -451,6 +451,9 @@ DIRECTED = [
     [_a(1, [["await", 1], ["spawn", 1, "spawn", [["await", 2]]], ["spawn", 2, "spawn", [["await", 3]]], ["raise", "base"]])],
     [_a(1, [["spawn", 1, "spawn", [["await", 1], ["spawn", 2, "spawn", [["await", 2]]], ["await", 3],
                                     ["spawn", 3, "spawn", [["probe", 1]]]]]]), ["await", 9]],
+    # a member that swallows its cancellation and spawns again while the group shuts down (must be refused, not detached)
+    [_a(1, [["spawn", 1, "spawn", [["try", [["await", 1]]], ["spawn", 2, "spawn", [["await", 2]]], ["await", 3]]],
+            ["await", 4], ["raise", "exc"]]), ["await", 9]],
     # two nested async scopes, members in both, cancellation in the inner exit wait
     [_a(1, [["spawn", 1, "spawn", [["await", 5]]], _a(2, [["spawn", 2, "spawn", _SLOW]]), ["await", 4]]), ["await", 9]],
 ]
